@@ -486,11 +486,13 @@ def observe(bd: str) -> T.Dict[str, str]:
         elif rel == 'meson-private/build.dat':
             out[rel] = 'o:build' if build_dat_file_ok(p) else 't'
         else:
-            data = open(p, 'rb').read().replace(os.path.dirname(bd).encode(), b'@SLOT')
+            data = _HEX_RE.sub(b'<digest>', open(p, 'rb').read().replace(os.path.dirname(bd).encode(), b'@SLOT'))
             out[rel] = 'o:' + hashlib.sha256(data).hexdigest()[:12]
     return out
 
 
+import re as _re
+_HEX_RE = _re.compile(rb'[0-9a-f]{40}')
 ARTEFACTS = ['build.ninja', 'compile_commands.json', 'conf.h']
 
 
@@ -511,7 +513,7 @@ def artefacts(bd: str, wset: T.Sequence[str] = ()) -> T.Tuple[T.Dict[str, str], 
         p = os.path.join(bd, rel)
         if not os.path.isfile(p):
             continue
-        data = open(p, 'rb').read().replace(slot, b'@SLOT')
+        data = _HEX_RE.sub(b'<digest>', open(p, 'rb').read().replace(slot, b'@SLOT'))
         if rel.endswith('.json'):
             try:
                 data = json.dumps(json.loads(data.decode('utf-8')), sort_keys=True).encode()
@@ -721,6 +723,30 @@ def record(slot: Slot, sc: Scn) -> dict:
             recovery_raw = parse_log(slot.log)
     orphans = [w for w in write_set(raw) if '<digest>' in file_class(w)
                and os.path.isfile(os.path.join(slot.bd, w)) and not referenced(slot.bd, w)]
+    torn_recoveries = {}
+    if rc == sc.expected_rc:
+        srcs = {p for k_, p, x in raw if k_ in ('replace', 'rename')}
+        rewritten = set(write_set(recovery_raw))
+        first_open = {}
+        for i, (k_, p, x) in enumerate(raw):
+            if k_ == 'open_w' and p not in first_open:
+                first_open[p] = i
+        for p, i in sorted(first_open.items()):
+            if p in srcs or p in rewritten or not_state(p) or i + 1 >= len(raw):
+                continue
+            # written in place and left alone by a follow-up run that finds it whole: what does the follow-up run do
+            # when it finds it torn?  kill right after the open, then record the real recovery
+            slot.restore(sc.hist, sc.backend)
+            run_proc(meson_argv(sc.cmd, sc.args, slot.bd, sc.backend, proj_of(sc.hist)),
+                     meson_env(slot.tmp, slot.bd, None, i + 1, 'before', extra=sc.env_extra))
+            if os.path.exists(slot.log):
+                os.unlink(slot.log)
+            configured = os.path.exists(os.path.join(slot.bd, 'meson-private', 'coredata.dat'))
+            rargv = meson_argv('reconfigure', [], slot.bd, sc.backend, proj_of(sc.hist)) if configured else \
+                (meson_argv(sc.cmd, sc.args, slot.bd, sc.backend, proj_of(sc.hist)) if sc.cmd == 'setup' else
+                 [sys.executable, os.path.join(common.REPO, 'meson.py'), 'setup', slot.bd, proj_of(sc.hist)])
+            run_proc(rargv, meson_env(slot.tmp, slot.bd, slot.log))
+            torn_recoveries[p] = parse_log(slot.log)
     nomf_vals = None
     if sc.mf and sc.cmd != 'setup' and pre_cl is not None:
         # what a first-time setup with only the -D options stored in the old cmd_line.txt (no machine file) yields
@@ -731,7 +757,7 @@ def record(slot: Slot, sc: Scn) -> dict:
         if rc2 == 0:
             nomf_vals = coredata_values(os.path.join(slot.bd, 'meson-private', 'coredata.dat'))
     slot.clean_tmp()
-    return {'scn': sc, 'rc': rc, 'nomf_vals': nomf_vals, 'recovery_raw': recovery_raw, 'orphans': orphans, 'out': out[-800:], 'raw': raw, 'pre_list': pre_list, 'pre_obs': pre_obs,
+    return {'scn': sc, 'rc': rc, 'nomf_vals': nomf_vals, 'recovery_raw': recovery_raw, 'orphans': orphans, 'torn_recoveries': torn_recoveries, 'out': out[-800:], 'raw': raw, 'pre_list': pre_list, 'pre_obs': pre_obs,
             'post_obs': post_obs, 'pre_vals': pre_vals, 'post_vals': post_vals, 'older_vals': older_vals}
 
 
@@ -779,7 +805,10 @@ def record_all(scenarios: T.List[Scn]) -> None:
 def scenario_model_inputs(rec: dict) -> T.Tuple[Interner, T.Dict[str, str], T.List[Raw], T.List[int]]:
     raw = rec['raw']
     st0 = init_states(rec['pre_list'])
-    I = Interner(set(st0) | paths_of(raw) | paths_of(rec.get('recovery_raw', [])))
+    extra_paths: T.Set[str] = set()
+    for tr_ in rec.get('torn_recoveries', {}).values():
+        extra_paths |= paths_of(tr_)
+    I = Interner(set(st0) | paths_of(raw) | paths_of(rec.get('recovery_raw', [])) | extra_paths)
     effs, start = coalesce(raw)
     return I, st0, effs, start
 
@@ -813,7 +842,12 @@ def gen_tables(ctx: Ctx) -> None:
         lines.append('-- paths: ' + ', '.join(f'{i}={file_class(q)}' for q, i in sorted(I.ids.items(), key=lambda kv: kv[1])))
         lines.append(f'    trace := [\n    {tr}],')
         lines.append(f'    ignored := [{ign}],')
-        lines.append(f'    recovery := [\n    {rtr}] }}')
+        lines.append(f'    recovery := [\n    {rtr}],')
+        tparts = []
+        for q, tr_ in sorted(rec.get('torn_recoveries', {}).items(), key=lambda kv: I(kv[0])):
+            body = ', '.join(lean_effect(e, I) for e in coalesce(tr_)[0])
+            tparts.append(f'({I(q)}, [{body}])')
+        lines.append('    tornRecovery := [' + ',\n      '.join(tparts) + '] }')
         lines.append('')
         names.append(sc.lean_name)
     lines.append('def all : List Scenario := [' + ', '.join(names) + ']')
@@ -832,6 +866,64 @@ def gen_tables(ctx: Ctx) -> None:
 
 def lean_state(s: str) -> str:
     return {'d': '.dir', 'a': '.absent', 't': '.torn', 'o0': '.ok .older', 'o1': '.ok .old', 'o2': '.ok .new'}[s]
+
+
+# ---------------------------------------------------------------- which writers of the source are reached
+
+HARVEST_DIRS = ['mesonbuild/backend', 'mesonbuild/modules']
+HARVEST_FILES = ['mesonbuild/msetup.py', 'mesonbuild/coredata.py', 'mesonbuild/build.py', 'mesonbuild/mintro.py',
+                 'mesonbuild/cmdline.py', 'mesonbuild/mconf.py', 'mesonbuild/environment.py',
+                 'mesonbuild/utils/universal.py', 'mesonbuild/utils/platform.py', 'mesonbuild/interpreter/interpreter.py',
+                 'mesonbuild/interpreter/mesonmain.py']
+
+
+def harvest_writers() -> T.Dict[T.Tuple[str, int], str]:
+    """grep-level harvest of the places where the configure-time code creates files: open(..., 'w'|'wb'|'a'|...),
+    Path.write_text / write_bytes; -> {(file, line): source text}"""
+    import re
+    pat = re.compile(r"""(\bopen\([^#]*['"](?:w|wb|a|ab|w\+|x|xb)['"])|(\.write_text\()|(\.write_bytes\()""")
+    files = list(HARVEST_FILES)
+    for d in HARVEST_DIRS:
+        dd = os.path.join(common.REPO, d)
+        if os.path.isdir(dd):
+            files += [os.path.join(d, f) for f in sorted(os.listdir(dd)) if f.endswith('.py')]
+    out: T.Dict[T.Tuple[str, int], str] = {}
+    for rel in files:
+        p = os.path.join(common.REPO, rel)
+        if not os.path.isfile(p):
+            continue
+        for i, line in enumerate(open(p, encoding='utf-8', errors='replace'), 1):
+            if pat.search(line):
+                out[(rel, i)] = line.strip()[:100]
+    return out
+
+
+def report_writers(ctx: Ctx) -> None:
+    sites = harvest_writers()
+    reached: T.Set[T.Tuple[str, int]] = set()
+    kinds: T.Set[str] = set()
+    for rec in _RECORDED.values():
+        for raw in [rec.get('raw', []), rec.get('recovery_raw', [])]:
+            for k, p, x in raw:
+                if k in ('open_w', 'open_a'):
+                    if not not_state(p):
+                        kinds.add(file_class(p))
+                    if x.startswith('site=') and x.count(':') >= 2:
+                        f, ln = x[5:].split(':')[:2]
+                        if ln.isdigit():
+                            reached.add((f, int(ln)))
+    hit = {s_ for s_ in sites if any((s_[0], s_[1] + d) in reached for d in (-2, -1, 0, 1, 2))}
+    unreached = sorted(set(sites) - hit)
+    ctx.extra['writer_sites'] = {
+        'harvested': len(sites), 'reached_by_recorded_traces': len(hit),
+        'other_sites_seen_at_run_time': sorted(f'{f}:{ln}' for f, ln in reached
+                                               if not any((f, ln + d) in sites for d in (-2, -1, 0, 1, 2)))[:40],
+        'unreached': [f'{f}:{ln}: {sites[(f, ln)]}' for f, ln in unreached],
+        'kinds_of_state_files_written': sorted(kinds),
+    }
+    ctx.tag('writer-sites-harvested', len(sites))
+    ctx.tag('writer-sites-reached', len(hit))
+    ctx.tag('state-file-kinds-written', len(kinds))
 
 
 # ---------------------------------------------------------------- one crash point on the real code
@@ -1286,6 +1378,7 @@ def run(ctx: Ctx) -> None:
         if os.environ.get('C09_SCN'):
             scenarios = [x for x in ALL_SCENARIOS if x.name in os.environ['C09_SCN'].split(',')]
         run_scenarios(ctx, scenarios)
+        report_writers(ctx)
         ctx.exhaustive = bool(ctx.deep)
         ctx.extra['scenarios'] = [s.name for s in scenarios]
         ctx.extra['traces_validated_against_impl'] = len(scenarios)
